@@ -114,6 +114,38 @@ def preimages(ctx: Ctx, f: Func, a: ast.AST, depth: int = 0) -> List[Tuple[Func,
     return [(f, a)]
 
 
+LOSSY_TEXT_OPS = {"strip", "rstrip", "lstrip", "lower", "upper", "casefold", "replace", "expandtabs", "translate", "removeprefix", "removesuffix", "sub", "subn",
+                  "title", "capitalize", "swapcase", "zfill", "ljust", "rjust", "center"}
+
+
+def algo_preimage_rule(ctx: Ctx, rule: str) -> int:
+    """the digest helpers (`_algo_*`: package functions of the hashing module that feed hashlib) hash their argument itself:
+    between the parameter and the digest there is an `encode` at most - no strip / case folding / replace / regex rewrite"""
+    rep = ctx.report
+    prog = ctx.prog
+    n = 0
+    for f in prog.module("dds.fun_args").funcs.values():
+        digests = [c for c in f.own_nodes() if isinstance(c, ast.Call) and ((prog.dotted(f, c.func) or "").startswith("hashlib.") or (
+            isinstance(c.func, ast.Name) and c.func.id.startswith("_algo") and c.func.id != f.name))]
+        if not f.name.startswith("_algo") or not digests or not f.params:
+            continue
+        for c in digests:
+            if not c.args:
+                continue
+            n += 1
+            sl = ctx.slicer(follow_calls=False).slice(f, c.args[0])
+            lossy = sl.find(lambda f_, x: isinstance(x, ast.Call) and isinstance(x.func, ast.Attribute) and x.func.attr in LOSSY_TEXT_OPS)
+            desc = f"{f.name}: the digest is taken over the argument itself (`{unparse(c.args[0], 40)}`)"
+            if lossy is None:
+                rep.ok(rule, f.qname, desc, f.loc(c))
+            else:
+                rep.bad(rule, f.qname, desc, f.loc(c), lossy.chain() + [
+                    f"`{unparse(lossy.node, 50)}` maps different strings to one pre-image: every string value bound to a parameter (direct value, literal in source, default) and "
+                    "every dictionary key goes through this helper, so 'x', 'x ' and 'x\\n' share a hash and a kept call is served the blob of another binding"],
+                    stmt_key(c), what="strings are normalised (lossy) before hashing: distinct values collide")
+    return n
+
+
 def dataclass_field_source(h: Func, br: ast.AST) -> List[str]:
     """the dataclass branch enumerates the fields with dataclasses.fields(): `__dataclass_fields__`, vars() / __dict__ / dir()
     also hold ClassVar / InitVar pseudo-fields or non-field attributes, i.e. class-level state that is not part of the value"""
@@ -240,6 +272,9 @@ def run(ctx: Ctx) -> None:
     if not len_checkers:
         rep.bad("C05.R6", outer.qname, "a size guard raising SEQUENCE_TOO_LONG exists", outer.loc(), ["no nested function raises DDSException(..., SEQUENCE_TOO_LONG)"], "no-guard",
                 what="no size guard with a coded error")
+    rep.rule("C05.R8", "the digest helpers hash their argument itself (an encode at most between the parameter and hashlib)")
+    n8 = algo_preimage_rule(ctx, "C05.R8")
+    rep.floor("C05.R8", n8, 2)
     # the error path is itself well typed: building the message of the coded exception cannot raise a low-level TypeError
     rep.rule("C05.R7", "no type error (mypy: arg-type / operator / call-arg / index / union-attr) in the statements that build and raise the coded "
                        "size error, nor in the nested helpers they call")
